@@ -623,6 +623,10 @@ func classify(c *Case) (bool, []string) {
 	case "manifest":
 		nt = c.Manifest != nil && len(c.Manifest.Updates) > 0
 		classes = append(classes, fmt.Sprintf("manifest:updates_%d", len(c.Manifest.Updates)))
+		if c.Manifest.Trunc != "" {
+			nt = true
+			classes = append(classes, "manifest:history_truncations_"+c.Manifest.Trunc, "truncation")
+		}
 	case "concurrent":
 		if c.Conc != nil && c.Conc.Valid != "" && c.Conc.Invalid != "" {
 			nt = true
